@@ -18,8 +18,10 @@ STATIC = dict(STRUCT, n_txn=(0, 0), no_once=False, weights=W(STRUCT["weights"], 
 # definitions at top level interleaved with drops and dumps (every constructor call ends with a collection of its own)
 TOPLEVEL = dict(STRUCT, n_txn=(0, 2), toplevel_mix=True)
 # switch_s: the inner dependency is rewired while events flow (the model is told the selector's value by S)
-SWITCH = dict(STRUCT, n_defs=(5, 14), n_txn=(2, 7),
-              weights=W(STRUCT["weights"], switchs=5, accum=1, collect=0.5, accumlazy=0, collectlazy=0))
+# switch_c: the cell of cells holds a handle inside its value, the result an initial thunk that owns it (forced at once here:
+# `sample` follows the construction; no switch_c inside loop bodies, where it cannot be sampled yet)
+SWITCH = dict(STRUCT, n_defs=(5, 14), n_txn=(2, 7), sample_after_switchc=True, no_switchc_in_loop=True,
+              weights=W(STRUCT["weights"], switchs=4, switchc=4, accum=1, collect=0.5, accumlazy=0, collectlazy=0, lift2d=0))
 
 
 def gen(tier, seed, pid):
@@ -31,7 +33,7 @@ def gen(tier, seed, pid):
         kw["leakcheck"] = (k % 3 == 0)
         out.append(apigen.generate(rng, apigen.profile(**kw)))
     import apienum
-    out += list(apienum.programs(3 if tier == "thorough" else 2, kinds=apienum.STRUCT_KINDS + ["switchs"], mode="struct"))
+    out += list(apienum.programs(3 if tier == "thorough" else 2, kinds=apienum.STRUCT_KINDS + ["switchs", "switchc"], mode="struct"))
     return out
 
 
